@@ -75,6 +75,9 @@ def model_term(elt, coeffs, refine, log, trace=False):
     fn = "roots_f64" if elt == 'f64' else "roots_cplx"
     fl = "fl_roots_trace" if trace else "fl_roots"
     t = "%s (%s (%s) %s %s)" % (fl, fn, table_term(log), coeffs_term(elt, coeffs), "true" if refine else "false")
+    if trace:
+        # last two items of the trace stream: the cancellation flags of the Cardano path (degree 3 only)
+        t += " ++ fl_diag (%s (%s) %s)" % ("cubic_diag_f64" if elt == 'f64' else "cubic_diag_cplx", table_term(log), coeffs_term(elt, coeffs))
     return t
 
 def exe_path():
@@ -127,10 +130,10 @@ class LazyTerm:
 IMPORTS = "From OV Require Import Model.Roots."
 
 def parse_trace(zs, n_expected=None):
-    """decode the fl_roots_trace stream -> (root bits [(re,im)], [(exit, iters, finite_in, finite_out, test_ok)]) or ('P', kind)"""
+    """decode the fl_roots_trace stream -> (root bits [(re,im)], [(exit, iters, finite_in, finite_out, test_ok, x_in)]) or ('P', kind)"""
     items = decode_coq(zs)
     if items and items[0][0] == 'P':
-        return None, items[0][1]
+        return None, items[0][1], (0, 0)
     n = items[0][1]; pos = 1
     bits = []
     for k in range(n):
@@ -138,5 +141,9 @@ def parse_trace(zs, n_expected=None):
     cnt = items[pos][1]; pos += 1
     tr = []
     for k in range(cnt):
-        tr.append((items[pos][1], items[pos + 1][1], items[pos + 2][1], items[pos + 3][1], items[pos + 4][1])); pos += 5
-    return bits, tr
+        tr.append((items[pos][1], items[pos + 1][1], items[pos + 2][1], items[pos + 3][1], items[pos + 4][1],
+                   complex(bits_f64(items[pos + 5][1]), bits_f64(items[pos + 6][1])))); pos += 7
+    cancels = (0, 0)
+    if pos + 1 < len(items) and items[pos][0] == 'i' and items[pos + 1][0] == 'i':
+        cancels = (items[pos][1], items[pos + 1][1])
+    return bits, tr, cancels
